@@ -162,7 +162,7 @@ def worker(task):
                 o = []
                 for b in blist:
                     r = py.call({"op": "parse", "t": tid, "hex": b.hex()})
-                    o.append(("ok", r["ok"]) if "ok" in r else ("rej", None) if "exc" in r else ("crash", None))
+                    o.append(("ok", _own(r["ok"], r.get("class"), tid)) if "ok" in r else ("rej", None) if "exc" in r else ("crash", None))
                 outs["python"] = o
             if cx and tid in have.get("cxx", ()):
                 o = []
@@ -175,7 +175,8 @@ def worker(task):
                 # is no parser *of that type* to compare with)
                 o = []
                 for r in jv.parse(tid, blist):
-                    o.append(("crash", None) if (r.get("timeout") or r.get("crash")) else ("ok", r.get("ok")) if "ok" in r else ("rej", None))
+                    o.append(("crash", None) if (r.get("timeout") or r.get("crash")) else
+                             ("ok", _own(r.get("ok"), r.get("class"), tid)) if "ok" in r else ("rej", None))
                 outs["java"] = o
             names = sorted(outs)
             if len(names) < 2:
@@ -251,6 +252,14 @@ def judge(m, tid, vals, eq, op, kind, V, case, hint=None):
     for who, others in dis:
         V("%s:%s" % (kind, reattribute(m, tid, who, others, op) or attribute(who, ctx(m, tid, who, op))), case)
     return True
+
+
+def _own(v, cls, tid):
+    """Python and Java answer with the most specialized class they can; such an object's `payload` is the
+    descendant's own, not the payload of the type that was asked for: not comparable"""
+    if isinstance(v, dict) and cls and cls != tid and cls != "Unknown" + tid and "payload" in v:
+        return {k: x for k, x in v.items() if k != "payload"}
+    return v
 
 
 def same_values(a, b):
